@@ -7,11 +7,13 @@ import (
 	"fmt"
 	"math/rand"
 	"os"
+	"os/exec"
 	"path/filepath"
 	"sort"
 	"strings"
 	"sync"
 	"time"
+	"verifh/gitrepo"
 
 	"verifh/cases"
 	"verifh/model"
@@ -133,6 +135,56 @@ func checkC17(c *Ctx) {
 					if len(why) > 0 {
 						c.AddViolation(Violation{Predicate: strings.Join(why, ","), Spec: "CliRun!ReadOnly / determinism", Kind: "det",
 							Input:    map[string]interface{}{"case": ac, "mode": m.Name, "gomaxprocs": procs},
+							Observed: map[string]interface{}{"exit": ar.Exit, "stderr": tail(ar.Stderr, 12)}})
+					}
+				}
+			}
+		}
+		// a ROOT argument that names an index entry (":path"), in a work tree whose files were touched after they were
+		// added (the index's stat data is stale): resolving it must not refresh, lock or rewrite the index
+		if !ac.Shallow {
+			gitTop := func(args ...string) ([]byte, error) {
+				cmd := exec.Command("/usr/bin/git", args...)
+				cmd.Dir = l.Top
+				cmd.Env = gitrepo.GitEnv(base)
+				return cmd.Output()
+			}
+			gitTop("read-tree", "refs/heads/main")
+			gitTop("checkout-index", "-a", "-f")
+			out, _ := gitTop("ls-files", "-z")
+			var paths []string
+			for _, p := range strings.Split(string(out), "\x00") {
+				if p != "" && !strings.ContainsAny(p, "\n") {
+					paths = append(paths, p)
+				}
+			}
+			if len(paths) > 0 {
+				old := time.Unix(1000000000, 0)
+				for _, p := range paths {
+					os.Chtimes(filepath.Join(l.Top, p), old, old)
+				}
+				for _, arg := range []string{":" + paths[0], ":0:" + paths[len(paths)-1]} {
+					e.extraEnv = []string{"VERIF_SNAP_DIR=" + base}
+					ar := e.runAddr(l, addrModes[0], base, race, 2, arg)
+					e.extraEnv = nil
+					total++
+					c.Distinct(fmt.Sprintf("%s/index-root/%s", ac.ID, arg))
+					var why []string
+					if ar.Exit != 0 {
+						c.Drift(fmt.Sprintf("ROOT %q (an index entry) was not accepted: %s", arg, tail(ar.Stderr, 2)))
+					}
+					if ar.Before != ar.After {
+						why = append(why, "repository_modified")
+					}
+					for _, rec := range ar.Log {
+						if rec.Snap != "" && rec.Snap != ar.Before {
+							why = append(why, "repository_modified_during_the_run")
+							break
+						}
+					}
+					if len(why) > 0 {
+						c.AddViolation(Violation{Predicate: strings.Join(why, ","), Spec: "CliRun!ReadOnly (index-entry ROOT, stale stat data)", Kind: "det",
+							Input:    map[string]interface{}{"case": ac, "mode": addrModes[0].Name, "gomaxprocs": 2, "index_root": arg},
 							Observed: map[string]interface{}{"exit": ar.Exit, "stderr": tail(ar.Stderr, 12)}})
 					}
 				}
